@@ -21,6 +21,8 @@ type ImplResult struct {
 	// Again executes another entry (fresh inputs) on the same Set, so that whatever loading or executing the
 	// first entry left behind in the Set is in place.
 	Again func(entry string) ImplResult `json:"-"`
+	// AgainWith is Again with other inputs (e.g. no data at all).
+	AgainWith func(entry string, mk func(log *[]string) Inputs) ImplResult `json:"-"`
 }
 
 func (r ImplResult) Failed() bool { return r.Err != nil || r.Panic != nil || r.LoadErr != nil }
@@ -103,11 +105,12 @@ func RunImpl(p *Program, src map[string]string, extra ...jet.Option) (res ImplRe
 	res.Out = buf.String()
 	res.Log = log
 	res.Vars = vars
-	res.Again = func(entry string) (r2 ImplResult) {
+	res.Again = func(entry string) (r2 ImplResult) { return res.AgainWith(entry, p.Mk) }
+	res.AgainWith = func(entry string, mk func(log *[]string) Inputs) (r2 ImplResult) {
 		var log2 []string
 		in2 := Inputs{}
-		if p.Mk != nil {
-			in2 = p.Mk(&log2)
+		if mk != nil {
+			in2 = mk(&log2)
 		}
 		var vars2 jet.VarMap
 		if in2.Vars != nil {
